@@ -58,13 +58,16 @@ func genC18(tier string) []Scenario {
 	}
 	posts := []answer{{action: ""}, {action: flyt.DefaultAction}, {action: "x"}}
 	maxN, maxC := 3, 2
+	if tier == "thorough" {
+		maxN, maxC = 4, 3
+	}
 	for n := 0; n <= maxN; n++ {
 		for c := 0; c <= maxC; c++ {
 			for _, noPost := range []bool{false, true} {
 				for _, inFlow := range []bool{false, true} {
 					bd := 0
 					if tier == "thorough" {
-						bd = 1
+						bd = 2
 					}
 					sc := batchScn{name: fmt.Sprintf("action batch n=%d c=%d post=%v inFlow=%v", n, c, !noPost, inFlow), n: n, c: c, budget: 1, shape: shResults, yield: c > 0,
 						execMenu: okOrErrMenu, postMenu: posts, noPost: noPost, inFlow: inFlow, bound: bd, chkAction: true}
